@@ -175,17 +175,24 @@ func (fr *Frame) execBody(st *State) ([]Value, *State, error) {
 		}
 		return res, dead, nil
 	}
+	res, out, err := fr.mergeRets(fr.rets)
+	return res, out, err
+}
+
+// mergeRets joins a set of return sites into one exit state and result tuple.
+func (fr *Frame) mergeRets(rets []retRec) ([]Value, *State, error) {
+	r := fr.run
 	var sts []*State
-	for _, rr := range fr.rets {
+	for _, rr := range rets {
 		sts = append(sts, rr.st)
 	}
 	out := r.heap.merge(sts)
-	n := len(fr.rets[0].vals)
+	n := len(rets[0].vals)
 	res := make([]Value, n)
 	for i := 0; i < n; i++ {
-		acc := fr.rets[len(fr.rets)-1].vals[i]
-		for j := len(fr.rets) - 2; j >= 0; j-- {
-			m, err := iteValue(r.ctx, fr.rets[j].st.guard, fr.rets[j].vals[i], acc)
+		acc := rets[len(rets)-1].vals[i]
+		for j := len(rets) - 2; j >= 0; j-- {
+			m, err := iteValue(r.ctx, rets[j].st.guard, rets[j].vals[i], acc)
 			if err != nil {
 				return nil, nil, r.unsupported("merging results of %s: %v", fr.fn.Name(), err)
 			}
@@ -197,6 +204,39 @@ func (fr *Frame) execBody(st *State) ([]Value, *State, error) {
 		}
 	}
 	return res, out, nil
+}
+
+// okRets returns the return sites whose error results are not syntactically a freshly
+// created error (fmt.Errorf / errors.New), plus the index of the error result.
+func (fr *Frame) okRets() ([]retRec, []string) {
+	results := fr.fn.Signature.Results()
+	var errIdx []int
+	var errNames []string
+	for i := 0; i < results.Len(); i++ {
+		if types.Identical(results.At(i).Type(), types.Universe.Lookup("error").Type()) {
+			errIdx = append(errIdx, i)
+			n := results.At(i).Name()
+			if n == "" || n == "_" {
+				n = fmt.Sprintf("result%d", i)
+			}
+			errNames = append(errNames, n)
+		}
+	}
+	if len(errIdx) != 1 {
+		return nil, nil
+	}
+	var ok []retRec
+	for _, rr := range fr.rets {
+		iv, isI := rr.vals[errIdx[0]].(*IfaceV)
+		if isI && iv.Tag == bvLit(0xfff1, 16) {
+			continue
+		}
+		ok = append(ok, rr)
+	}
+	if len(ok) == 0 || len(ok) == len(fr.rets) {
+		return nil, nil
+	}
+	return ok, errNames
 }
 
 func (fr *Frame) runDefers(st *State) error {
@@ -311,6 +351,8 @@ func (r *Run) copyElems(st *State, elem types.Type, dbase, doff, sbase, soff, n 
 			na, doff, doff, n, srca, soff, doff, olda, na)
 		r.heap.set(st, name, srt, sto(h, dbase, na), dbase)
 		r.assume(st, ax)
+		// the same fact as an equation between abstract sequences (quantifier-free to use)
+		r.assume(st, eq(r.seqOf(l.sort, na, doff, n), r.seqOf(l.sort, srca, soff, n)))
 	}
 	return nil
 }
@@ -360,6 +402,8 @@ func (fr *Frame) appendOp(st *State, c *ssa.CallCommon, args []Value, in ssa.Ins
 			na)
 		r.heap.set(st, name, srt, sto(h, resBase, na), resBase)
 		r.assume(st, ax)
+		r.assume(st, eq(r.seqOf(l.sort, na, resOff, s.Len), r.seqOf(l.sort, olda, s.Off, s.Len)))
+		r.assume(st, eq(r.seqOf(l.sort, na, "(bvadd "+resOff+" "+s.Len+")", t.Len), r.seqOf(l.sort, srca, t.Off, t.Len)))
 	}
 	return &SliceV{Base: resBase, Off: resOff, Len: newLen, Cap: resCap, Elem: elem}, nil
 }
@@ -465,7 +509,7 @@ func (fr *Frame) callByContractOrHavoc(st *State, name string, fn *ssa.Function,
 	}
 	tv := res.(*TupleV)
 	fresh := r.ctx.fresh("alloc", sRef)
-	r.assume(st, "(bvule "+st.alloc+" "+fresh+")")
+	r.assume(st, refLe(st.alloc, fresh))
 	st.alloc = fresh
 	r.assume(st, r.typeInv(st, tv))
 	return packResults(tv.E), nil
@@ -583,10 +627,10 @@ func (fr *Frame) callContract(st *State, ct *FuncContract, fn *ssa.Function, sig
 		r.assume(st, g)
 	}
 	// 2. havoc modifies
-	post := &postState{r: r, pre: pre, st: st, mods: map[string][]string{}, done: map[string]bool{}, pure: ct.Opts["pure"], noalloc: ct.Opts["noalloc"] || ct.Opts["pure"]}
+	post := &postState{r: r, pre: pre, st: st, mark: len(r.ctx.defs), mods: map[string][]string{}, done: map[string]bool{}, pure: ct.Opts["pure"], noalloc: ct.Opts["noalloc"] || ct.Opts["pure"]}
 	if !post.noalloc {
 		fresh := r.ctx.fresh("alloc", sRef)
-		r.assume(st, "(bvule "+pre.alloc+" "+fresh+")")
+		r.assume(st, refLe(pre.alloc, fresh))
 		st.alloc = fresh
 	}
 	for i, m := range ct.Modifies {
@@ -628,15 +672,21 @@ func (fr *Frame) callContract(st *State, ct *FuncContract, fn *ssa.Function, sig
 	return packResults(results), nil
 }
 
-// postState implements "lazy havoc": a component read by a postcondition of a callee
-// that may allocate is replaced by a fresh array that agrees with the old one on every
-// object that existed before the call and is not listed in modifies.
+// postState implements the heap after a call made through a contract, without
+// quantifiers: a component is changed (a) at the references listed in modifies, where it
+// gets an unknown value, and (b) at references allocated by the callee. For (b), every
+// read of component C at reference r made while evaluating the postconditions yields
+// ite(r existed before the call and is not in modifies, C_old[r], Cf[r]) with one unknown
+// array Cf per call and component, and the post-call version of C records that value at r.
 type postState struct {
 	r       *Run
 	pre     *State
 	st      *State
 	mods    map[string][]string // comp -> refs that may be modified ("*" = all)
 	done    map[string]bool
+	fresh   map[string]string // comp -> Cf
+	seen    map[string]bool   // comp|ref already recorded
+	mark    int               // number of definitions when the call started
 	pure    bool
 	noalloc bool
 }
@@ -652,47 +702,85 @@ func (p *postState) apply() {
 	}
 }
 
-// touch makes sure comp has its post-call version.
+// touch gives comp its post-call base version (modifies applied).
 func (p *postState) touch(comp string) {
 	if p.done[comp] || p.pure {
 		return
 	}
 	p.done[comp] = true
 	refs := p.mods[comp]
-	if p.noalloc && len(refs) == 0 {
+	if len(refs) == 0 {
 		return
 	}
 	r := p.r
 	srt := r.heap.comps[comp]
 	old := r.heap.get(p.pre, comp, srt)
-	all := false
 	for _, x := range refs {
 		if x == "*" {
-			all = true
+			r.heap.set(p.st, comp, srt, r.ctx.fresh(comp, srt), "*")
+			return
 		}
 	}
-	nw := r.ctx.fresh(comp, srt)
-	logRef := "*"
-	if len(refs) == 1 && !all {
-		logRef = refs[0]
-	}
-	if len(refs) == 0 {
-		logRef = "$fresh"
-	}
-	r.heap.set(p.st, comp, srt, nw, logRef)
-	nw = p.st.heap[comp]
-	if !all {
-		r.assume(p.st, frameFormula(nw, old, p.pre.alloc, refs))
-	}
+	_, es := arrSorts(srt)
+	cur := old
 	for _, x := range refs {
-		if x != "*" && len(refs) > 1 {
-			// log each modified ref for loop write-set discovery
-			for _, l := range r.heap.log {
-				if l[comp] == nil {
-					l[comp] = map[string]bool{}
-				}
-				l[comp][x] = true
-			}
+		cur = sto(cur, x, r.ctx.fresh(comp+".mod", es))
+		r.heap.set(p.st, comp, srt, cur, x)
+		cur = p.st.heap[comp]
+	}
+}
+
+// read returns the post-call value of comp at ref (used while evaluating ensures).
+func (p *postState) read(comp, srt, ref string) string {
+	r := p.r
+	r.heap.declare(comp, srt)
+	p.touch(comp)
+	if p.pure || p.noalloc {
+		return sel(r.heap.get(p.st, comp, srt), ref)
+	}
+	for _, x := range p.mods[comp] {
+		if x == "*" {
+			return sel(r.heap.get(p.st, comp, srt), ref)
 		}
 	}
+	// a reference computed before the call denotes an object that existed before the call
+	// (Go has no dangling or forged pointers): its post-call value is the base version
+	pre := true
+	for _, t := range tokens(ref) {
+		if i, ok := r.ctx.idx[t]; ok && i >= p.mark {
+			pre = false
+			break
+		}
+	}
+	if pre {
+		return sel(r.heap.get(p.st, comp, srt), ref)
+	}
+	if p.fresh == nil {
+		p.fresh = map[string]string{}
+		p.seen = map[string]bool{}
+	}
+	cf, ok := p.fresh[comp]
+	if !ok {
+		cf = r.ctx.fresh(comp+".cf", srt)
+		p.fresh[comp] = cf
+	}
+	cur := r.heap.get(p.st, comp, srt)
+	val := ite(refLt(ref, p.pre.alloc), sel(cur, ref), sel(cf, ref))
+	key := comp + "|" + ref
+	if !p.seen[key] {
+		p.seen[key] = true
+		_, es := arrSorts(srt)
+		var v string
+		if strings.HasPrefix(es, "(Array") {
+			// element memory: name the inner array by a constant so that quantifier
+			// triggers over it survive the solver's rewriting of select-over-ite
+			v = r.ctx.fresh(comp+".rd", es)
+			r.assume(p.st, eq(v, val))
+		} else {
+			v = r.ctx.define(comp+".rd", es, val)
+		}
+		r.heap.set(p.st, comp, srt, sto(cur, ref, v), "$fresh")
+		return v
+	}
+	return val
 }
